@@ -326,12 +326,12 @@ func Run(input string) string {
 // a fatal error that recover() does not see.  Cases therefore run in a child process under an
 // address-space limit; when the child dies the case is reported as GOFATAL and a new child starts.
 
-const workerAS = 6 << 30 // bytes of address space for the child
+const workerAS = 3 << 30 // bytes of address space for the child
 
 func WorkerLoop() {
 	logger.Disable()
 	_ = syscall.Setrlimit(syscall.RLIMIT_AS, &syscall.Rlimit{Cur: workerAS, Max: workerAS})
-	debug.SetMaxStack(32 << 20) // unbounded recursion dies quickly instead of growing a 1 GB stack
+	debug.SetMaxStack(8 << 20) // unbounded recursion dies quickly instead of growing a 1 GB stack
 	in := bufio.NewReaderSize(os.Stdin, 1<<20)
 	w := bufio.NewWriterSize(os.Stdout, 1<<16)
 	for {
@@ -410,5 +410,86 @@ func RunViaWorker(input string) string {
 		w.kill()
 		cur = nil
 		return "GOFATAL timeout"
+	}
+}
+
+// RunAll implements `run`: all cases are written to the worker ahead of the answers being read, so
+// that the two processes do not wait for each other on every case.  If the worker dies, the case it
+// was working on is GOFATAL and a new worker continues with the next one.
+func RunAll() {
+	var lines []string
+	sc := bufio.NewScanner(os.Stdin)
+	sc.Buffer(make([]byte, 1<<20), 1<<28)
+	for sc.Scan() {
+		line := sc.Text()
+		if line == "" || line[0] == '#' {
+			continue
+		}
+		if i := strings.Index(line, " | "); i >= 0 {
+			line = line[:i]
+		}
+		lines = append(lines, line)
+	}
+	out := bufio.NewWriterSize(os.Stdout, 1<<20)
+	defer out.Flush()
+	emit := func(i int, res string) {
+		out.WriteString(lines[i])
+		out.WriteString(" | ")
+		out.WriteString(res)
+		out.WriteByte('\n')
+	}
+	i := 0
+	for i < len(lines) {
+		w := startWorker()
+		go func(start int) {
+			bw := bufio.NewWriterSize(w.in, 1<<16)
+			for j := start; j < len(lines); j++ {
+				if _, err := bw.WriteString(lines[j]); err != nil {
+					return
+				}
+				if err := bw.WriteByte('\n'); err != nil {
+					return
+				}
+			}
+			bw.Flush()
+			w.in.Close()
+		}(i)
+		type res struct {
+			s   string
+			err error
+		}
+		ch := make(chan res)
+		done := make(chan struct{})
+		go func() {
+			for {
+				s, err := w.out.ReadString('\n')
+				select {
+				case ch <- res{s, err}:
+				case <-done:
+					return
+				}
+				if err != nil {
+					return
+				}
+			}
+		}()
+		alive := true
+		for alive && i < len(lines) {
+			select {
+			case r := <-ch:
+				if r.err != nil {
+					emit(i, "GOFATAL worker-died")
+					alive = false
+				} else {
+					emit(i, strings.TrimRight(r.s, "\n"))
+				}
+			case <-time.After(20 * time.Second):
+				emit(i, "GOFATAL timeout")
+				alive = false
+			}
+			i++
+		}
+		close(done)
+		w.kill()
 	}
 }
